@@ -135,7 +135,8 @@ def worker_main(workdir: str) -> None:
         sys.stdout, sys.stderr = cap_out, cap_err
         try:
             so, se, st = api.run(args)
-            res.update(status=st, out=(so + cap_out.getvalue())[-20000:], err=(se + cap_err.getvalue())[-8000:])
+            o_all = so + cap_out.getvalue()
+            res.update(status=st, out=o_all if len(o_all) <= 20000 else o_all[:8000] + "\n" + o_all[-12000:], err=(se + cap_err.getvalue())[-8000:])
         except BaseException as e:  # noqa: everything, incl. SystemExit with a non-int code, RecursionError
             res.update(status=-1, out=cap_out.getvalue()[-8000:], err=cap_err.getvalue()[-8000:], exc=type(e).__name__,
                        tb=traceback.format_exc()[-12000:])
@@ -1351,7 +1352,8 @@ def classify(res: dict[str, Any], args: list[str]) -> tuple[str, str] | None:
         e = res.get("exc") or exc_name(tb)
         fr = mypy_frame(tb)
         return f"crash:{e}:{fr}", f"uncaught {e} escaped mypy.api.run at {fr}"
-    if "maximum semantic analysis iteration count reached" in re.sub(r"\s+", " ", out + err) and "Traceback (most recent call last)" not in out:
+    if ("maximum semantic analysis iteration count reached" in re.sub(r"\s+", " ", out + err) or
+            (st == 2 and len(re.findall(r"^    [\w.]+:-?\d+$", out, re.M)) > 20)) and "Traceback (most recent call last)" not in out:
         return "internal:semanal-max-iterations", "INTERNAL ERROR: maximum semantic analysis iteration count reached (deferral loop cut off by MAX_ITERATIONS)"
     if "INTERNAL ERROR" in err or "INTERNAL ERROR" in out:
         tb = out[out.find("Traceback (most recent call last)"):] if "Traceback (most recent call last)" in out else out + err
@@ -2072,6 +2074,175 @@ def gen_directed() -> list[dict[str, Any]]:
 QUICK_USES = {"annot", "base", "call", "alias-of", "func-body", "metaclass", "namedtuple-field", "type-comment"}
 
 
+# ------------------------------------------------------------------ directed corpus, round 3 families
+
+NS = [0, 1, 2, 3, 10, 11, 12]
+
+
+def _tuple_t(n: int, t: str = "int") -> str:
+    return "Tuple[()]" if n == 0 else "Tuple[" + ", ".join([t] * n) + "]"
+
+
+def _tuple_v(n: int, v: str = "1") -> str:
+    return "()" if n == 0 else "(" + ", ".join([v] * n) + ("," if n == 1 else "") + ")"
+
+
+def gen_directed_more() -> list[dict[str, Any]]:
+    out: list[dict[str, Any]] = []
+
+    def add(name: str, src: str, extra: dict[str, str] | None = None, args: list[str] | None = None, q: bool = False) -> None:
+        files = {"main.py": HDR + src + ("" if src.endswith("\n") else "\n")}
+        if extra:
+            files.update(extra)
+        out.append({"name": name, "files": files, "args": args or [], "targets": ["main.py"], "key": None, "q": q})
+
+    # ---- A2. generic CLASSES whose type variable (bound / values / default / PEP 695 bound) refers into a cyclic shape
+    gen_uses = {
+        "bound-str": "T9 = TypeVar('T9', bound='X')\nclass G9(Generic[T9]):\n    pass",
+        "bound": "T9 = TypeVar('T9', bound=X)\nclass G9(Generic[T9]):\n    a: T9",
+        "bound-list": "T9 = TypeVar('T9', bound='List[X]')\nclass G9(Generic[T9]): pass\nclass H9(G9[Any]): pass",
+        "values": "T9 = TypeVar('T9', 'X', int)\nclass G9(Generic[T9]): pass",
+        "default": "T9 = TypeVar('T9', default='X')\nclass G9(Generic[T9]): pass\nv9: G9",
+        "generic-and-base": "T9 = TypeVar('T9', bound='X')\nclass G9(Generic[T9], X): pass",
+        "protocol": "T9 = TypeVar('T9', bound='X')\nclass G9(Protocol[T9]):\n    def m(self) -> T9: ...",
+        "pep695-bound": "class G9[T: X]:\n    pass",
+        "pep695-func": "def g9[T: X](a: T) -> T: return a",
+        "paramspec-generic": "P9 = ParamSpec('P9')\nclass G9(Generic[P9]):\n    f: Callable[P9, X]",
+        "self-bound-generic": "T9 = TypeVar('T9', bound='G9[X]')\nclass G9(Generic[T9]): pass",
+        "typevartuple-generic": "Ts9 = TypeVarTuple('Ts9')\nclass G9(Generic[Unpack[Ts9]]): pass\nv9: G9[X, Unpack[Tuple[X, ...]]]",
+    }
+    for dname, defs in CYCLIC_DEFS:
+        for uname, use in gen_uses.items():
+            add(f"cyc-generic:{dname}:{uname}:before", "\n".join([use] + defs), q=uname in ("bound-str", "pep695-bound"))
+            add(f"cyc-generic:{dname}:{uname}:after", "\n".join(defs + [use]), q=uname == "bound")
+            if len(defs) > 1:
+                add(f"cyc-generic:{dname}:{uname}:between", "\n".join(defs[:1] + [use] + defs[1:]))
+
+    # ---- A3. reverse forward-reference chains (every definition refers to the NEXT one), lengths around MAX_ITERATIONS
+    for n in (2, 5, 10, 15, 18, 19, 20, 21, 22, 25, 30, 40, 60):
+        qq = n in (19, 21, 30)
+        add(f"chain:class-bases:{n}", "\n".join(f"class C{i}(C{i+1}): pass" for i in range(n)) + f"\nclass C{n}: pass", q=qq)
+        add(f"chain:aliases:{n}", "\n".join(f"C{i} = C{i+1}" for i in range(n)) + f"\nclass C{n}: pass\nv: C0", q=qq)
+        add(f"chain:generic-aliases:{n}", "\n".join(f"C{i} = List[C{i+1}]" for i in range(n)) + f"\nC{n} = int\nv: C0", q=n == 21)
+        add(f"chain:typevar-bounds:{n}", "\n".join(f"T{i} = TypeVar('T{i}', bound='G{i+1}[Any]')\nclass G{i}(Generic[T{i}]): pass" for i in range(n)) + f"\nclass G{n}(Generic[T0]): pass", q=n == 21)
+        add(f"chain:namedtuples:{n}", "\n".join(f"N{i} = NamedTuple('N{i}', [('a', N{i+1})])" for i in range(n)) + f"\nN{n} = int", q=n == 21)
+        add(f"chain:class-attr-annots:{n}", "\n".join(f"class C{i}(C{i+1}):\n    a: 'C{i+1}'\n    def m(self) -> 'C{(i+2) % (n+1)}': ..." for i in range(n)) + f"\nclass C{n}: pass")
+        add(f"chain:metaclasses:{n}", "\n".join(f"class C{i}(metaclass=C{i+1}): pass" for i in range(n)) + f"\nclass C{n}(type): pass")
+        add(f"chain:newtypes:{n}", "\n".join(f"C{i} = NewType('C{i}', C{i+1})" for i in range(n)) + f"\nclass C{n}: pass")
+        add(f"chain:cycle-closed:{n}", "\n".join(f"class C{i}(C{(i+1) % n}): pass" for i in range(n)))
+        if n <= 25:
+            add(f"chain:modules:{n}", "import m0", {f"m{i}.py": (f"from m{i+1} import C{i+1}\nclass C{i}(C{i+1}): pass\n" if i < n else f"class C{i}: pass\n") for i in range(n + 1)})
+
+    # ---- M. message construction: every len/index/slice-dependent formatting helper of messages.py with 0/1/2/3/10/11/12 items
+    for a in NS:
+        for b in NS:
+            qq = (a in (0, 1) and b >= 11) or (a, b) in ((11, 12), (12, 1), (2, 2))
+            add(f"msg:tuple-assign:{a}<-{b}", f"x: {_tuple_t(a)} = {_tuple_v(b)}\ny: {_tuple_t(a, 'str')} = {_tuple_v(b)}", q=qq)
+            add(f"msg:tuple-return:{a}<-{b}", f"def f() -> {_tuple_t(a)}:\n    return {_tuple_v(b, chr(39) + 's' + chr(39))}", q=qq and a == 0)
+            add(f"msg:tuple-arg:{a}<-{b}", f"def f(a: {_tuple_t(a)}) -> None: ...\nf({_tuple_v(b)})\nt: {_tuple_t(b, 'str')}\nf(t)", q=(a, b) == (1, 11))
+            add(f"msg:tuple-var-tuple:{a}<-{b}", f"x: {_tuple_t(a)}\ny: {_tuple_t(b, 'str')}\nx = y\ny = x\nz: Tuple[int, ...] = y\nw: List[int] = x")
+            add(f"msg:unpack:{a}<-{b}", (", ".join(f"v{i}" for i in range(a)) + ("," if a == 1 else "") + f" = {_tuple_v(b)}") if a else f"() = {_tuple_v(b)}")
+            add(f"msg:call-args:{a}<-{b}", "def f(" + ", ".join(f"a{i}: int" for i in range(a)) + ") -> None: ...\nf(" + ", ".join(["1"] * b) + ")\nf(" + ", ".join(f"k{i}=1" for i in range(b)) + ")\nf(*" + _tuple_v(b) + ")", q=(a, b) in ((11, 0), (0, 11), (3, 12)))
+            add(f"msg:callable-assign:{a}<-{b}", "def f(" + ", ".join(f"a{i}: int" for i in range(b)) + ") -> None: ...\nx: Callable[[" + ", ".join(["str"] * a) + "], int] = f\nreveal_type(f)")
+            add(f"msg:typeddict-keys:{a}<-{b}", "class D(TypedDict):\n" + ("".join(f"    k{i}: int\n" for i in range(a)) or "    pass\n") + "d: D = {" + ", ".join(f"'x{i}': 1" for i in range(b)) + "}\nD(" + ", ".join(f"y{i}=1" for i in range(b)) + ")\nd2 = D()", q=(a, b) in ((11, 0), (0, 11), (12, 12)))
+            add(f"msg:override-sig:{a}<-{b}", "class A:\n    def f(self" + "".join(f", a{i}: int" for i in range(a)) + ") -> None: ...\nclass B(A):\n    def f(self" + "".join(f", b{i}: str" for i in range(b)) + ") -> int: ...")
+            add(f"msg:type-args:{a}<-{b}", "class G(Generic[" + ", ".join(f"T{i}" for i in range(a)) + "]): pass\nv: G[" + ", ".join(["int"] * b) + "]\nw: List[" + ", ".join(["int"] * b) + "]" if a and b else f"v: Dict[{', '.join(['int'] * max(a, b, 1))}]",
+                )
+    tvs = "\n".join(f"T{i} = TypeVar('T{i}')" for i in range(13)) + "\n"
+    for e in out:
+        if e["name"].startswith("msg:type-args"):
+            e["files"]["main.py"] = e["files"]["main.py"].replace(HDR, HDR + tvs)
+    for n in NS:
+        qn = n in (0, 1, 11)
+        classes = "".join(f"class K{i}:\n    a{i}: int\n" for i in range(max(n, 1)))
+        un = "Union[" + ", ".join(f"K{i}" for i in range(n)) + "]" if n else "NoReturn"
+        add(f"msg:union-assign:{n}", classes + f"x: {un} = object()\ny: int = cast({un!r}, 1)\nu: {un}\nu.nope\nu.a0\nu()\nu + 1\nu[0]\nfor _ in u: pass", q=qn)
+        add(f"msg:union-optional:{n}", classes + f"x: Optional[{un}]\nx.a0\ny: {un} = None\nreveal_type(x)", args=["--strict-optional"])
+        lits = "Literal[" + ", ".join(f"'v{i}'" for i in range(n)) + "]" if n else "Literal['only']"
+        add(f"msg:literal-union:{n}", f"x: {lits} = 'zzz'\ndef f(a: {lits}) -> None: ...\nf('q')\ny: str\nf(y)\nreveal_type(x)", q=qn)
+        add(f"msg:overload-variants:{n}", "".join(f"@overload\ndef f(a: K{i}) -> K{i}: ...\n" for i in range(n)) + classes + ("def f(a): return a\n" if n else "def f(a: int) -> int: return a\n") + "f('s')\nf()\nf(1, 2)\nreveal_type(f)", q=qn or n == 3)
+        add(f"msg:overload-override:{n}", classes + "class A:\n" + "".join(f"    @overload\n    def f(self, a: K{i}) -> K{i}: ...\n" for i in range(n)) + "    def f(self, a=None): return a\nclass B(A):\n    def f(self, a: str) -> str: ...")
+        add(f"msg:missing-positional:{n}", "def f(" + ", ".join(f"a{i}: int" for i in range(n)) + ") -> None: ...\nf()\nclass C:\n    def __init__(self" + "".join(f", a{i}: int" for i in range(n)) + ") -> None: ...\nC()", q=qn)
+        add(f"msg:missing-named:{n}", "def f(*" + "".join(f", a{i}: int" for i in range(n)) + ") -> None: ...\nf()\nf(1)" if n else "def f(*, a: int) -> None: ...\nf()")
+        add(f"msg:unexpected-keywords:{n}", "def f(colour: int = 1, color_1: int = 1, colors: int = 1, collar: int = 1, cooler: int = 1) -> None: ...\nf(" + ", ".join(f"colou{'r' * (i + 2)}=1" for i in range(n)) + ")\nf(**{'a': 1})\nf(color=1)", q=qn)
+        add(f"msg:protocol-missing:{n}", "class P(Protocol):\n" + ("".join(f"    def m{i}(self) -> int: ...\n    a{i}: int\n" for i in range(n)) or "    pass\n") + "class C: pass\nx: P = C()\ndef f(p: P) -> None: ...\nf(C())\nf(1)", q=qn or n == 2)
+        add(f"msg:protocol-conflicts:{n}", "class P(Protocol):\n" + ("".join(f"    def m{i}(self, a: int) -> int: ...\n    a{i}: int\n    @property\n    def p{i}(self) -> int: ...\n" for i in range(n)) or "    pass\n")
+            + "class C:\n" + ("".join(f"    def m{i}(self, a: str, b: int = 1) -> str: ...\n    a{i}: ClassVar[str]\n    @overload\n    def p{i}(self) -> int: ...\n    @overload\n    def p{i}(self, a: int) -> str: ...\n    def p{i}(self, a=1): ...\n" for i in range(n)) or "    pass\n") + "x: P = C()\ny: Type[P] = C", q=qn or n == 3)
+        add(f"msg:abstract-attrs:{n}", "class A(abc.ABC):\n" + ("".join(f"    @abc.abstractmethod\n    def m{i}(self) -> int: ...\n" for i in range(n)) or "    pass\n") + "A()\nclass B(A): pass\nB()\n@final\nclass F(A): pass", q=qn or n == 3)
+        add(f"msg:implicit-abstract:{n}", "class A(Protocol):\n" + ("".join(f"    def m{i}(self) -> int: ...\n" for i in range(n)) or "    pass\n") + "class B(A): pass\nB()", q=n in (1, 3))
+        add(f"msg:typeddict-missing-keys:{n}", "class D(TypedDict):\n" + ("".join(f"    k{i}: int\n" for i in range(n)) or "    pass\n") + "D()\nd: D = {}\nd['nope']\nd['k0']\ndel d['zz']\nd.get('a', 1)\nd.setdefault('q', 1)\nd.pop('w')\nd.update({'e': 1})\nd | {'r': 1}\nD(**{'t': 1})", q=qn or n == 2)
+        pass  # (odd TypedDict keys: one program per key, below)
+        add(f"msg:namedtuple-args:{n}", "N = NamedTuple('N', [" + ", ".join(f"('f{i}', int)" for i in range(n)) + "])\nN()\nN(" + ", ".join(["'s'"] * (n + 1)) + ")\nn: N\n" + ", ".join(f"v{i}" for i in range(n + 1)) + (", = n" if True else ""), q=qn)
+        add(f"msg:dataclass-args:{n}", "@dataclasses.dataclass(order=True)\nclass DC:\n" + ("".join(f"    f{i}: int\n" for i in range(n)) or "    pass\n") + "DC()\nDC(" + ", ".join(["'s'"] * (n + 1)) + ")\nDC(**{'a': 1})\ndataclasses.replace(DC(), zz=1)\nmatch DC():\n    case DC(" + ", ".join(["1"] * (n + 1)) + "): pass")
+        add(f"msg:enum-exhaustive:{n}", "class E(enum.Enum):\n" + ("".join(f"    M{i} = {i}\n" for i in range(n)) or "    pass\n") + "def f(e: E) -> int:\n    match e:\n        case E.M0: return 1\n    assert_never(e)\ndef g(e: E) -> int:\n    if e is E.M0: return 1\n    reveal_type(e)\n    assert_never(e)",
+            args=["--enable-error-code", "exhaustive-match", "--warn-unreachable"], q=qn or n == 2)
+        add(f"msg:typevar-values:{n}", "T = TypeVar('T', " + ", ".join(f"K{i}" for i in range(max(n, 2))) + ")\n" + "".join(f"class K{i}: pass\n" for i in range(max(n, 2))) + "def f(a: T) -> T: return a\nf('s')\nclass G(Generic[T]): pass\nv: G[str]")
+        add(f"msg:tuple-index:{n}", f"t: {_tuple_t(n)}\nt[{n}]\nt[-{n + 1}]\nt[{n}:]\nt[::0]\nt[1:{n}:2]\nt['a']\nreveal_type(t[0:{n + 5}])", q=qn)
+        add(f"msg:str-format:{n}", "'" + "%s " * n + "' % " + _tuple_v(n + 1) + "\n'" + "%s " * (n + 1) + "' % " + _tuple_v(n) + "\n'" + "{} " * (n + 1) + "'.format(" + ", ".join(["1"] * n) + ")\n'%(a)s %s' % {'b': 1}\n'{0} {} {a.b[0]!r:>{w}}'.format(1)\nb'%s' % 'x'", q=qn)
+        add(f"msg:import-missing:{n}", "from os import " + (", ".join(f"nope{i}" for i in range(n)) or "nope") + "\nimport os\n" + "".join(f"os.pat{'h' * (i + 2)}\n" for i in range(n)) + "os.path.joi\nos.pth", q=qn)
+        add(f"msg:attr-suggestions:{n}", "class C:\n" + ("".join(f"    value{i}: int\n" for i in range(n)) or "    pass\n") + "C().value\nC().valu\nC.value_\nC().values99 = 1", q=qn or n == 3)
+        add(f"msg:reveal-locals:{n}", "def f(" + ", ".join(f"a{i}: int" for i in range(n)) + ") -> None:\n    reveal_locals()\nreveal_locals()\nclass C:\n    reveal_locals()", q=n == 0)
+        add(f"msg:long-names:{n}", f"class {'L' * (20 * n + 1)}: pass\nx: int = {'L' * (20 * n + 1)}()\ndef {'f' * (30 * n + 1)}(a: {'L' * (20 * n + 1)}) -> None: ...\n{'f' * (30 * n + 1)}(1)\ny: Literal['{'s' * (40 * n + 1)}'] = 1\nreveal_type({'f' * (30 * n + 1)})", q=n in (0, 12))
+        add(f"msg:nested-types:{n}", "x: " + "List[" * (n + 1) + "int" + "]" * (n + 1) + " = 1\ny: " + "Callable[[int], " * (n + 1) + "int" + "]" * (n + 1) + " = 1\nz: " + "Tuple[" * (n + 1) + "int" + ", str]" * (n + 1) + " = 1")
+        add(f"msg:multiple-inheritance:{n}", "".join(f"class B{i}:\n    def m(self, a: K{i}) -> None: ...\n    x: K{i}\nclass K{i}: pass\n" for i in range(max(n, 1))) + "class C(" + ", ".join(f"B{i}" for i in range(max(n, 1))) + "): pass")
+        add(f"msg:slots-and-final:{n}", "class A:\n    __slots__ = (" + "".join(f"'s{i}', " for i in range(n)) + ")\n    def __init__(self) -> None:\n" + ("".join(f"        self.t{i} = 1\n" for i in range(max(n, 1)))) + "class F:\n" + "".join(f"    c{i}: Final = {i}\n" for i in range(max(n, 1))) + "".join(f"F.c{i} = 0\n" for i in range(max(n, 1))))
+    for nm, key in {"newline": "'x\\ny'", "dquote": "'\"'", "nul": "'\\x00'", "surrogate": "'\\udc80'", "long": "'" + "k" * 300 + "'", "bytes": "b'a'", "fstring": "f'{d}'",
+                    "int": "1", "empty-tuple": "()", "cr": "'a\\rb'", "colon-error": "': error: x'", "bracket": "'[misc]'", "tab": "'a\\tb'", "nonbmp": "'\\U0001f600'"}.items():
+        add(f"msg:typeddict-odd-key:{nm}", f"class D(TypedDict):\n    a: int\nd: D = {{'a': 1}}\nd[{key}]\nd[{key}] = 1\ne: D = {{{key}: 1}}\nD(**{{{key}: 1}})", q=nm in ("newline", "surrogate", "dquote"))
+        add(f"msg:odd-attr-and-names:{nm}", f"getattr(object(), {key})\nx: Dict[str, int] = {{{key}: 's'}}\nreveal_type({key})\ndef f(a: Literal[{key}]) -> None: ...\nf('other')", q=nm == "newline")
+    # odd literal contents in messages (surrogates, newlines, NUL, quotes) -- batch AND cache writer
+    for nm, lit in {"surrogate": "\\udc80", "newline": "a\\nb", "nul": "\\x00", "quote": "\\\"", "cr": "a\\rb", "long": "x" * 500, "nonbmp": "\\U0001f600", "bidi": "\\u202e", "bytes-nonascii": "\\xff"}.items():
+        add(f"msg:literal-content:{nm}", f"x: Literal[\"{lit}\"] = 1\ny: Literal[b\"{lit if nm != 'surrogate' and nm != 'nonbmp' and nm != 'bidi' else 'z'}\"] = 1\nreveal_type(x)\nclass E(enum.Enum):\n    A = \"{lit}\"\nreveal_type(E.A.value)\nz: Final = \"{lit}\"\nreveal_type(z)", q=True)
+        add(f"msg:literal-content-cache:{nm}", f"import lib\nreveal_type(lib.x)", {"lib.py": f"from typing import Literal, Final\nx: Literal[\"{lit}\"]\nz: Final = \"{lit}\"\n"}, q=nm in ("surrogate", "newline"))
+    return out
+
+
+# ------------------------------------------------------------------ daemon histories (file / package life cycle for every import form)
+
+def gen_histories() -> list[dict[str, Any]]:
+    """Each history = list of steps; a step maps path -> text (write) or None (delete); the daemon gets
+    `check -- main.py` (or `recheck`) after every step and must answer every one of them."""
+    H: list[dict[str, Any]] = []
+    main_forms = {"import-p.m": "import p.m\np.m.f()", "from-p-import-m": "from p import m\nm.f()", "from-p.m-import-f": "from p.m import f\nf()",
+                  "import-p": "import p\np.m.f()", "star": "from p import *\nm.f()", "import-as": "import p.m as q\nq.f()", "from-p-import-f": "from p import f\nf()"}
+    init_forms = {"empty": "", "from-dot-import-m": "from . import m\n", "from-dotm-import-f": "from .m import f\n", "from-p-import-m": "from p import m\n",
+                  "from-dotm-star": "from .m import *\n", "import-p.m": "import p.m\n", "all": "__all__ = ['m', 'f']\nfrom . import m\nfrom .m import f\n"}
+    M1, M2 = "def f() -> None: pass\n", "def f(x: int) -> None: pass\n"
+
+    def add(name: str, steps: list[dict[str, str | None]], cmds: list[str] | None = None, q: bool = False) -> None:
+        H.append({"name": name, "steps": steps, "cmds": cmds or ["check"] * len(steps), "q": q})
+    for mn, mt in main_forms.items():
+        for inn, it in init_forms.items():
+            base: dict[str, str | None] = {"main.py": mt + "\n", "p/__init__.py": it, "p/m.py": M1}
+            tag = f"{mn}|{inn}"
+            qq = inn in ("from-dot-import-m", "empty") and mn in ("import-p.m", "from-p-import-m")
+            add(f"hist:del-submodule:{tag}", [base, {"p/m.py": None}, {"p/m.py": M2}, {"main.py": mt.replace("f()", "f(1)") + "\n"}], q=qq or (inn == "all" and mn == "import-p"))
+            add(f"hist:del-submodule-recheck:{tag}", [base, {"p/m.py": None}, {"p/m.py": M2}], ["check", "recheck", "recheck"], q=qq)
+            add(f"hist:del-init:{tag}", [base, {"p/__init__.py": None}, {"p/__init__.py": it}], q=mn == "import-p.m" and inn == "from-dot-import-m")
+            add(f"hist:del-package:{tag}", [base, {"p/__init__.py": None, "p/m.py": None}, {"p/__init__.py": it, "p/m.py": M2}], q=mn == "from-p-import-m" and inn == "from-dot-import-m")
+            add(f"hist:module-to-package:{tag}", [base, {"p/m.py": None, "p/m/__init__.py": M2}, {"p/m/__init__.py": None, "p/m.py": M1}], q=mn == "import-p.m" and inn == "empty")
+            add(f"hist:package-to-module:{tag}", [base, {"p/__init__.py": None, "p/m.py": None, "p.py": "class m:\n    @staticmethod\n    def f() -> None: pass\ndef f() -> None: pass\n"}, {"p.py": None, "p/__init__.py": it, "p/m.py": M1}])
+            add(f"hist:stub-appears:{tag}", [base, {"p/m.pyi": "def f(x: str) -> None: ...\n"}, {"p/m.pyi": None}, {"p/__init__.pyi": "from . import m as m\n"}, {"p/__init__.pyi": None}], q=mn == "from-p.m-import-f" and inn == "empty")
+            add(f"hist:syntax-error-in-submodule:{tag}", [base, {"p/m.py": "def f( -> None: pass\n"}, {"p/m.py": M2}, {"p/__init__.py": "def (\n"}, {"p/__init__.py": it}])
+    for form, use in {"import": "import m\nm.f()", "from": "from m import f\nf()", "star": "from m import *\nf()", "as": "import m as q\nq.f()", "in-func": "def g() -> None:\n    import m\n    m.f()", "type-checking": "if TYPE_CHECKING:\n    import m\ndef g(a: 'm.C') -> None: ..."}.items():
+        base2: dict[str, str | None] = {"main.py": "from typing import TYPE_CHECKING\n" + use + "\n", "m.py": M1 + "class C: pass\n"}
+        add(f"hist:del-module:{form}", [base2, {"m.py": None}, {"m.py": M2 + "class C: pass\n"}, {"m.py": None, "m/__init__.py": M1 + "class C: pass\n"}, {"m/__init__.py": None, "m.pyi": "def f() -> None: ...\nclass C: ...\n"}], q=form in ("import", "from"))
+        add(f"hist:del-module-recheck:{form}", [base2, {"m.py": None}, {"m.py": M2}], ["check", "recheck", "recheck"], q=form == "star")
+        add(f"hist:del-module+syntax-error-recheck:{form}", [base2, {"m.py": None, "main.py": "def f( -> None: pass\n"}, base2], ["check", "recheck", "recheck"], q=form == "import")
+    # inheritance / alias / import cycles INTRODUCED by an edit
+    a0, b0 = "class A: pass\n", "from a import A\nclass B(A): pass\n"
+    add("hist:inheritance-cycle-by-edit", [{"main.py": "import a, b\n", "a.py": a0, "b.py": b0}, {"a.py": "from b import B\nclass A(B): pass\n"}, {"a.py": a0}], q=True)
+    add("hist:inheritance-cycle-by-edit-3", [{"main.py": "import a, b, c\n", "a.py": a0, "b.py": b0, "c.py": "from b import B\nclass C(B): pass\n"}, {"a.py": "from c import C\nclass A(C): pass\n"}, {"a.py": a0}], q=True)
+    add("hist:alias-cycle-by-edit", [{"main.py": "import a, b\nv: a.X\n", "a.py": "X = int\n", "b.py": "from a import X\nY = X\n"}, {"a.py": "from b import Y\nX = Y\n"}, {"a.py": "X = int\n"}], q=True)
+    add("hist:typevar-bound-cycle-by-edit", [{"main.py": "import a, b\n", "a.py": "from typing import TypeVar, Generic\nclass Bd: pass\nT = TypeVar('T', bound=Bd)\nclass G(Generic[T]): pass\n", "b.py": "from a import G, Bd\nclass S(Bd): pass\nv: G[S]\n"},
+                                             {"a.py": "from typing import TypeVar, Generic\nfrom b import S\nclass Bd(S): pass\nT = TypeVar('T', bound=Bd)\nclass G(Generic[T]): pass\n"}, {"a.py": "class Bd: pass\n"}], q=True)
+    add("hist:import-cycle-by-edit", [{"main.py": "import a\n", "a.py": "x = 1\n", "b.py": "import a\ny = a.x\n"}, {"a.py": "import b\nx = b.y\n"}, {"a.py": "from b import *\nfrom b import y as x\n", "b.py": "from a import *\nfrom a import x as y\n"}, {"a.py": "x = 1\n"}], q=True)
+    add("hist:class-to-alias-to-var", [{"main.py": "from a import X\nclass S(X): pass\nv: X\n", "a.py": "class X: pass\n"}, {"a.py": "X = int\n"}, {"a.py": "X = 1\n"}, {"a.py": "def X() -> None: pass\n"}, {"a.py": "import os as X\n"}, {"a.py": "from typing import TypeVar\nX = TypeVar('X')\n"}, {"a.py": "class X: pass\n"}], q=True)
+    add("hist:main-deleted", [{"main.py": "import a\n", "a.py": "x = 1\n"}, {"main.py": None}, {"main.py": "import a\n"}])
+    add("hist:empty-files", [{"main.py": "import a\n", "a.py": ""}, {"a.py": "\n"}, {"main.py": ""}, {"main.py": "import a\n", "a.py": "x: int = ''\n"}])
+    return H
+
+
 class Finding:
     def __init__(self, key: str, what: str, job: dict[str, Any], res: dict[str, Any], mode: str) -> None:
         self.key, self.what, self.job, self.res, self.mode = key, what, job, res, mode
@@ -2306,6 +2477,78 @@ def daemon_directed(progs: list[dict[str, Any]], slot: int) -> list[dict[str, An
         shutil.rmtree(d, ignore_errors=True)
 
 
+def daemon_histories(hists: list[dict[str, Any]]) -> list[dict[str, Any]]:
+    """One daemon served with scripted file-life-cycle histories one after the other (corpus/C20/histories.json).
+    A step maps path -> text (write) or None (delete).  Returns failing events + a summary."""
+    d = tempfile.mkdtemp(prefix="c20-dh-")
+    sf = os.path.join(d, "status.json")
+    wd = os.path.join(d, "w")
+    os.makedirs(wd)
+    bad: list[dict[str, Any]] = []
+    clock = int(time.time()) - 300000
+
+    def start() -> int:
+        return _dmypy(sf, ["start", "--", "--show-traceback", "--no-error-summary", "--no-color-output", "--cache-dir", os.devnull], wd)[0]
+
+    def wipe() -> None:
+        for root, ds, fs in os.walk(wd, topdown=False):
+            for f in fs:
+                os.remove(os.path.join(root, f))
+            for d_ in ds:
+                shutil.rmtree(os.path.join(root, d_), ignore_errors=True)
+    try:
+        with open(os.path.join(wd, "main.py"), "w") as fh:
+            fh.write("x = 1\n")
+        if start() != 0:
+            return [{"step": "start", "status": -1, "out": "daemon did not start", "hung": False, "name": "start", "files": {}}]
+        _dmypy(sf, ["check", "--", "main.py"], wd)
+        answered = 0
+        for h in hists:
+            wipe()
+            state: dict[str, str] = {}
+            for i, (step, cmd) in enumerate(zip(h["steps"], h["cmds"])):
+                clock += 7
+                for rel, src in step.items():
+                    path = os.path.join(wd, rel)
+                    if src is None:
+                        state.pop(rel, None)
+                        try:
+                            os.remove(path)
+                            dd = os.path.dirname(path)
+                            while dd != wd and not os.listdir(dd):
+                                os.rmdir(dd)
+                                dd = os.path.dirname(dd)
+                        except OSError:
+                            pass
+                    else:
+                        state[rel] = src
+                        os.makedirs(os.path.dirname(path), exist_ok=True)
+                        with open(path, "w", encoding="utf-8", newline="") as fh:
+                            fh.write(src)
+                        os.utime(path, (clock, clock))
+                st, out, hung = _dmypy(sf, ["recheck"] if cmd == "recheck" else ["check", "--", "main.py"], wd)
+                if hung or "Daemon crashed" in out or "Traceback (most recent call last)" in out or "INTERNAL ERROR" in out or st not in (0, 1, 2):
+                    bad.append({"step": f"{h['name']} step {i} ({cmd})", "status": st, "out": out, "hung": hung, "name": h["name"], "files": dict(state),
+                                "history": h["steps"][: i + 1], "cmds": h["cmds"][: i + 1], "args": []})
+                    _dmypy(sf, ["kill"], wd, limit=20)
+                    wipe()
+                    with open(os.path.join(wd, "main.py"), "w") as fh:
+                        fh.write("x = 1\n")
+                    if start() != 0:
+                        return bad + [{"step": "summary", "answered": answered}]
+                    _dmypy(sf, ["check", "--", "main.py"], wd)
+                    break
+                answered += 1
+        bad.append({"step": "summary", "answered": answered})
+        return bad
+    finally:
+        try:
+            _dmypy(sf, ["kill"], d, limit=20)
+        except Exception:  # noqa
+            pass
+        shutil.rmtree(d, ignore_errors=True)
+
+
 def classify_daemon(ev: dict[str, Any]) -> tuple[str, str] | None:
     out = ev.get("out", "")
     if ev.get("hung"):
@@ -2458,6 +2701,38 @@ def stage_S(ctx: vlib.Ctx) -> None:
                         if expected_fail.get(ev.get("name", "")) != kk and kk in {v_ for v_ in expected_fail.values()}:
                             kk = "directed-new:" + kk      # reaches a listed crash site from a program that does not do so in batch mode
                         record(found, kk, kd[1], jobd, {"status": ev["status"], "out": ev["out"], "err": ""}, "daemon")
+            hp = os.path.join(CORPUS_DIR, "histories.json")
+            hists = json.load(open(hp)) if os.path.exists(hp) else []
+            if ctx.quick:
+                hists = [h for h in hists if h.get("q")]
+            hslices = [hists[k::vlib.NPROC] for k in range(vlib.NPROC)]
+            with ThreadPoolExecutor(max_workers=vlib.NPROC) as ex:
+                hres = list(ex.map(lambda k: daemon_histories(hslices[k]) if hslices[k] else [], range(vlib.NPROC)))
+            h_answered = 0
+            hist_fail: dict[str, str] = {}
+            for evs in hres:
+                for ev in evs:
+                    if ev.get("step") == "summary":
+                        h_answered += ev["answered"]
+                        continue
+                    kd = classify_daemon(ev)
+                    if kd is None:
+                        continue
+                    hist_fail[ev["name"]] = kd[0]
+                    jobd = {"name": "daemon-history:" + ev["name"], "desc": ev["step"], "files": ev["files"], "args": [], "targets": ["main.py"],
+                            "flagkey": flagkey([]), "daemon": True, "history": ev.get("history"), "cmds": ev.get("cmds")}
+                    kk = kd[0] if expected_fail.get(ev["name"]) == kd[0] else "directed-new:" + kd[0]
+                    record(found, kk, kd[1], jobd, {"status": ev["status"], "out": ev["out"], "err": ""}, "daemon")
+            ctx.cov["daemon_histories"] = len(hists)
+            ctx.cov["daemon_history_requests_answered"] = h_answered
+            ctx.cov["daemon_histories_failing"] = dict(sorted(hist_fail.items()))
+            ctx.add("evaluations", h_answered)
+            ctx.log(f"S: {len(hists)} daemon histories: {h_answered} requests answered, {len(hist_fail)} histories failing ({time.time()-t0:.1f}s)")
+            if os.environ.get("VERIF_C20_WRITE_EXPECTED"):
+                pth = os.environ["VERIF_C20_WRITE_EXPECTED"]
+                cur = json.load(open(pth)) if os.path.exists(pth) else {}
+                cur.update(hist_fail)
+                json.dump(cur, open(pth, "w"), indent=0, sort_keys=True)
             ctx.cov["daemon_directed_edits"] = len(dprogs)
             ctx.cov["daemon_directed_answered"] = dd_answered
             ctx.add("evaluations", len(dprogs))
@@ -2530,7 +2805,7 @@ def stage_S(ctx: vlib.Ctx) -> None:
             tb = f.res.get("tb") or f.res.get("out", "")
             ctx.violation(key, f"{f.what} [{f.mode}, {f.count} input(s); e.g. {f.job.get('name')} {f.job.get('desc')}]",
                           {"kind": "daemon-history" if (f.mode == "daemon" and job.get("history")) else "mypy-run",
-                           "history": job.get("history"), "mode": f.mode, "files": job["files"], "args": job["args"], "targets": job.get("targets", ["main.py"]),
+                           "history": job.get("history"), "cmds": job.get("cmds"), "mode": f.mode, "files": job["files"], "args": job["args"], "targets": job.get("targets", ["main.py"]),
                            "command": command_of(job), "count": f.count, "origin": f"{f.job.get('name')} {f.job.get('desc')}",
                            "traceback_tail": tb[-1800:]})
         ctx.cov["unconfirmed_in_fresh_process"] = unconfirmed
@@ -2621,8 +2896,11 @@ def replay(ctx: vlib.Ctx, path: str) -> None:
 
 
 if __name__ == "__main__" and len(sys.argv) >= 2 and sys.argv[1] == "--gen-directed":
-    progs = gen_directed()
+    progs = gen_directed() + gen_directed_more()
     os.makedirs(CORPUS_DIR, exist_ok=True)
     with open(os.path.join(CORPUS_DIR, "directed.json"), "w") as fh:
         json.dump(progs, fh, indent=0, ensure_ascii=True)
-    print(len(progs), "directed programs written")
+    hs = gen_histories()
+    with open(os.path.join(CORPUS_DIR, "histories.json"), "w") as fh:
+        json.dump(hs, fh, indent=0, ensure_ascii=True)
+    print(len(progs), "directed programs,", sum(1 for e in progs if e.get("q")), "in the quick subset;", len(hs), "daemon histories,", sum(1 for h in hs if h["q"]), "quick")
